@@ -196,4 +196,157 @@ package forwarder
 //@   invariant len(handlers) == 12 && handlers[0] == handleWindowsNetError && handlers[1] == handleNetError && handlers[2] == handleTLSRecordHeader && handlers[3] == handleTLSCertificateError && handlers[4] == handleTLSECHRejectionError && handlers[5] == handleTLSAlertError && handlers[6] == handleMartianErrorStatus && handlers[7] == handleAuthenticationError && handlers[8] == handleDenyError && handlers[9] == handleProhibitedError && handlers[10] == handleContextCancelationError && handlers[11] == handleStatusText
 
 //@ pred hasPA(h http.Header) = ("Proxy-Authenticate" in h) && len(h["Proxy-Authenticate"]) > 0
-//@ axiom canon("Proxy-Authenticate") == "Proxy-Authenticate" && canon("X-Forwarder-Error") == "X-Forwarder-Error" && canon("Content-Type") == "Content-Type"
+//@ axiom canon("Proxy-Authenticate") == "Proxy-Authenticate" && canon("X-Forwarder-Error") == "X-Forwarder-Error" && canon("Content-Type") == "Content-Type" && canon("Authorization") == "Authorization"
+
+// ---- credentials (C06) ----
+
+// matchOf: the documented precedence - exact host:port, then *:port, then
+// host:*, then the global entry; an unparsable host:port matches nothing but
+// an exact entry.
+//@ pred matchOf(m *CredentialsMatcher, hp string) = ite(hp in m.hostport, m.hostport[hp], ite(!splitOK(hp), nil, ite(splitPort(hp) in m.port, m.port[splitPort(hp)], ite(splitHost(hp) in m.host, m.host[splitHost(hp)], m.global))))
+
+//@ func (*CredentialsMatcher).Match
+//@ property C06
+//@ requires m != nil ==> m.log != nil
+//@ pure
+//@ ensures m == nil ==> result == nil
+//@ ensures m != nil ==> result == matchOf(m, hostport)
+
+// matchURLOf: the URL's own port if it has one, else 80 / 443 by scheme, else nothing.
+//@ pred matchURLOf(m *CredentialsMatcher, u *url.URL) = ite(m == nil || u == nil, nil, ite(portOf(u.Host) != "", matchOf(m, u.Host), ite(u.Scheme == "http", matchOf(m, hostPortOf(u.Host, 80)), ite(u.Scheme == "https", matchOf(m, hostPortOf(u.Host, 443)), nil))))
+
+//@ func (*CredentialsMatcher).MatchURL
+//@ property C06
+//@ requires m != nil ==> m.log != nil
+//@ pure
+//@ ensures result == matchURLOf(m, u)
+
+// setBasicAuth: an Authorization the client supplied is never replaced; site
+// credentials are attached only when an entry matches the request's target,
+// never to a CONNECT (whose header goes to this or the upstream proxy, not to
+// the origin), and no other field is touched.
+//@ func (*HTTPProxy).setBasicAuth
+//@ property C06 C01
+//@ requires hp != nil && req != nil && req.Header != nil && (hp.creds != nil ==> hp.creds.log != nil)
+//@ modifies req.Header[*], elems(string), elems(byte)
+//@ ensures result == nil
+//@ ensures forall k string :: k != "Authorization" ==> (k in req.Header) == old(k in req.Header) && req.Header[k] == old(req.Header[k])
+//@ ensures old(hdrFirst(req.Header, "Authorization")) != "" || req.Method == "CONNECT" || old(matchURLOf(hp.creds, req.URL)) == nil ==> ("Authorization" in req.Header) == old("Authorization" in req.Header) && req.Header["Authorization"] == old(req.Header["Authorization"])
+//@ ensures old(hdrFirst(req.Header, "Authorization")) == "" && req.Method != "CONNECT" && old(matchURLOf(hp.creds, req.URL)) != nil ==> "Authorization" in req.Header
+
+// Kerberos configuration is read-only here.
+//@ ghost fn krbConfig(KerberosAdapter) *KerberosConfig
+//@ func (KerberosAdapter).GetConfig as (a KerberosAdapter) (result *KerberosConfig)
+//@ trusted
+//@ pure
+//@ ensures result == krbConfig(a) && result != nil
+
+// upstreamProxyURL: a copy of the configured URL; credentials in the URL win,
+// otherwise the matching --credentials entry is used; with Kerberos proxy
+// authentication no basic credentials are attached at all. The configured URL
+// itself is not modified.
+//@ func (*HTTPProxy).upstreamProxyURL
+//@ property C06 C05
+//@ requires hp != nil && hp.config != nil && hp.config.UpstreamProxy != nil && hp.log != nil && (hp.creds != nil ==> hp.creds.log != nil)
+//@ modifies url.URL.User
+//@ ensures result != nil && fresh(result) && result.Host == hp.config.UpstreamProxy.Host && result.Scheme == hp.config.UpstreamProxy.Scheme
+//@ ensures hp.config.UpstreamProxy.User == old(hp.config.UpstreamProxy.User)
+//@ ensures hp.kerberosAdapter != nil && krbConfig(hp.kerberosAdapter).AuthUpstreamProxy ==> result.User == nil
+//@ ensures !(hp.kerberosAdapter != nil && krbConfig(hp.kerberosAdapter).AuthUpstreamProxy) && old(hp.config.UpstreamProxy.User) != nil ==> result.User == old(hp.config.UpstreamProxy.User)
+//@ ensures !(hp.kerberosAdapter != nil && krbConfig(hp.kerberosAdapter).AuthUpstreamProxy) && old(hp.config.UpstreamProxy.User) == nil ==> result.User == matchURLOf(hp.creds, result)
+
+// ---- PAC-selected upstream (C05 L5.2, C06) ----
+
+// The resolver's answer for this call is remembered (the script is evaluated
+// by the JavaScript runtime, outside the model).
+//@ ghost ivar pacAnswer() string
+//@ ghost ivar pacFailed() bool
+//@ func (PACResolver).FindProxyForURL as (r PACResolver, u *url.URL, hostname string) (result string, err error)
+//@ trusted
+//@ modifies pacAnswer(), pacFailed()
+//@ ensures pacAnswer() == result && pacFailed() == (err != nil)
+
+// pacProxy: the first entry of the script's answer decides - DIRECT (or empty)
+// means no proxy; PROXY/HTTP an http proxy, HTTPS an https proxy, SOCKS5 a
+// socks5 proxy at the parsed host:port; a script error, an unparsable entry and
+// the unimplemented SOCKS/SOCKS4 types fail the request. Credentials: the
+// matching --credentials entry, none with Kerberos proxy authentication.
+//@ func (*HTTPProxy).pacProxy
+//@ property C05 C06
+//@ requires hp != nil && r != nil && hp.pac != nil && (hp.creds != nil ==> hp.creds.log != nil)
+//@ modifies pacAnswer(), pacFailed(), url.URL.User
+//@ ensures pacFailed() ==> result1 != nil && result0 == nil
+//@ ensures !pacFailed() && !firstDirect(pacAnswer()) && !firstOK(pacAnswer()) ==> result1 != nil && result0 == nil
+//@ ensures !pacFailed() && !firstDirect(pacAnswer()) && firstOK(pacAnswer()) && (firstMode(pacAnswer()) == 4 || firstMode(pacAnswer()) == 5) ==> result1 != nil && result0 == nil
+//@ ensures !pacFailed() && (firstDirect(pacAnswer()) || (firstOK(pacAnswer()) && firstMode(pacAnswer()) == 0)) ==> result1 == nil && result0 == nil
+//@ ensures !pacFailed() && !firstDirect(pacAnswer()) && firstOK(pacAnswer()) && (firstMode(pacAnswer()) == 1 || firstMode(pacAnswer()) == 2) ==> result1 == nil && result0 != nil && result0.Scheme == "http" && result0.Host == firstHostPort(pacAnswer())
+//@ ensures !pacFailed() && !firstDirect(pacAnswer()) && firstOK(pacAnswer()) && firstMode(pacAnswer()) == 3 ==> result1 == nil && result0 != nil && result0.Scheme == "https" && result0.Host == firstHostPort(pacAnswer())
+//@ ensures !pacFailed() && !firstDirect(pacAnswer()) && firstOK(pacAnswer()) && firstMode(pacAnswer()) == 6 ==> result1 == nil && result0 != nil && result0.Scheme == "socks5" && result0.Host == firstHostPort(pacAnswer())
+//@ ensures result0 != nil && hp.kerberosAdapter != nil && krbConfig(hp.kerberosAdapter).AuthUpstreamProxy ==> result0.User == nil
+//@ ensures result0 != nil && !(hp.kerberosAdapter != nil && krbConfig(hp.kerberosAdapter).AuthUpstreamProxy) ==> result0.User == matchURLOf(hp.creds, result0)
+
+// ---- --connect-to rules (C05 L5.5): the first matching rule rewrites the address ----
+
+//@ pred ruleHit(s HostPortPair, host string, port string) = (s.Src.Host == "" || s.Src.Host == host) && (s.Src.Port == "" || s.Src.Port == port)
+//@ pred ruleDst(s HostPortPair, host string, port string) = joinHP(ite(s.Dst.Host == "", host, s.Dst.Host), ite(s.Dst.Port == "", port, s.Dst.Port))
+
+//@ func DialRedirectFromHostPortPairs$1
+//@ property C05
+//@ pure
+//@ ensures result0 == network
+//@ ensures !splitOK(address) ==> result1 == address
+//@ ensures splitOK(address) && (forall j int :: 0 <= j && j < len(subs) ==> !ruleHit(subs[j], splitHost(address), splitPort(address))) ==> result1 == address
+//@ ensures splitOK(address) ==> result1 == address && (forall j int :: 0 <= j && j < len(subs) ==> !ruleHit(subs[j], splitHost(address), splitPort(address))) || (exists k int :: 0 <= k && k < len(subs) && ruleHit(subs[k], splitHost(address), splitPort(address)) && (forall j int {subs[j]} :: 0 <= j && j < k ==> !ruleHit(subs[j], splitHost(address), splitPort(address))) && result1 == ruleDst(subs[k], splitHost(address), splitPort(address)))
+//@ ensures splitOK(address) ==> forall k int {subs[k]} :: 0 <= k && k < len(subs) && ruleHit(subs[k], splitHost(address), splitPort(address)) && (forall j int {subs[j]} :: 0 <= j && j < k ==> !ruleHit(subs[j], splitHost(address), splitPort(address))) ==> result1 == ruleDst(subs[k], splitHost(address), splitPort(address))
+//@ loop 0:
+//@   invariant forall j int :: 0 <= j && j <= rangeindex ==> !ruleHit(subs[j], host, port)
+
+// ---- direct routes (C05 L5.1) ----
+
+//@ ghost fn matcherHit(Matcher, string) bool
+//@ func (Matcher).Match as (m Matcher, s string) (result bool)
+//@ trusted
+//@ pure
+//@ ensures result == matcherHit(m, s)
+
+// directDomains: a host on the direct list is never sent to an upstream proxy.
+//@ func (*HTTPProxy).directDomains$1
+//@ property C05
+//@ requires hp != nil && hp.config != nil && hp.config.DirectDomains != nil && req != nil && req.URL != nil && fn != nil
+//@ modifies **
+//@ ensures old(matcherHit(hp.config.DirectDomains, urlHostname(req.URL))) ==> result0 == nil && result1 == nil
+
+// directLocalhost: nor is localhost in 'direct' mode.
+//@ func (*HTTPProxy).directLocalhost$1
+//@ property C05
+//@ requires hp != nil && req != nil && req.URL != nil && fn != nil
+//@ modifies **
+//@ ensures old(parseOK(toLower(urlHostname(req.URL))) && (isLoopbackIP(toLower(urlHostname(req.URL))) || isUnspecIP(toLower(urlHostname(req.URL))))) ==> result0 == nil && result1 == nil
+
+// Dialer.DialContext: the address that is dialled is the one the redirect
+// function returns for the requested address (the requested one without rules).
+//@ ghost ivar netDialed() string
+//@ ghost ivar rdOut() string
+//@ func type:forwarder.DialRedirectFunc as (network string, address string) (targetNetwork string, targetAddress string)
+//@ trusted
+//@ modifies rdOut()
+//@ ensures rdOut() == targetAddress
+
+// (the retry loop around net.Dialer: every attempt dials the same address)
+//@ func (*Dialer).dialContext
+//@ trusted
+//@ modifies *, netDialed()
+//@ preserves Dialer.*
+//@ ensures netDialed() == address
+
+// (wraps the connection for accounting; see conntrack, C13)
+//@ func (conntrack.Builder).Build
+//@ trusted
+//@ modifies *
+
+//@ func (*Dialer).DialContext
+//@ property C05
+//@ requires d != nil && ctx != nil && d.metrics != nil
+//@ modifies *, netDialed(), rdOut()
+//@ ensures old(d.rd) == nil ==> netDialed() == address
+//@ ensures old(d.rd) != nil ==> netDialed() == rdOut()
